@@ -163,6 +163,69 @@ def _(vm, a, ci): return str_len(vm, S(vm, a[0]))
 def _(vm, a, ci): return str_is_empty(vm, S(vm, a[0]))
 
 
+@path('<impl str>::rsplit_once', '<impl str>::replace', '<impl str>::replacen', '<impl str>::split_at', '<impl str>::eq_ignore_ascii_case', '<impl str>::repeat')
+def _(vm, a, ci):
+    m = ci.method
+    s = _bounded(vm, S(vm, a[0]))
+    items = s.chars(); n = len(items)
+    if m == 'split_at':
+        k = a[1]
+        if not isinstance(k, int): raise Unmodelled('split_at with a symbolic index')
+        if not s.is_boundary(k): raise PanicEdge('panic', f'str::split_at({k}): not a char boundary of a {s.nbytes()}-byte string')
+        return tup(s.sub(0, k), s.sub(k, s.nbytes()))
+    if m == 'repeat':
+        k = a[1]
+        if not isinstance(k, int): raise Unmodelled('str::repeat with a symbolic count')
+        from .std_iter import _widths
+        return BStr(Buf(items * k, _widths(s) * k))
+    if m == 'eq_ignore_ascii_case':
+        o = _bounded(vm, S(vm, a[1])); oi = o.chars()
+        if len(oi) != n: return False
+        for x, y in zip(items, oi):
+            lx = chartab.case_map(vm, x, True, True)[0]; ly = chartab.case_map(vm, y, True, True)[0]
+            if not truth(vm, lx == ly if (is_sym(lx) or is_sym(ly)) else lx == ly): return False
+        return True
+    pk, pv = _pat_chars(vm, a[1], ci)
+    if m == 'rsplit_once':
+        for i in range(n, -1, -1):
+            k = _match_at(vm, items, i, pk, pv)
+            if k is not None and (k > 0 or pk != 'str'): return some(tup(_view(s, 0, i), _view(s, i + k, n)))
+        return NONE()
+    # replace / replacen: non-overlapping matches left to right
+    rep = _bounded(vm, S(vm, a[2])); limit = a[3] if m == 'replacen' else None
+    from .std_iter import _widths
+    ws = _widths(s); rcs, rws = rep.chars(), _widths(rep)
+    out_c, out_w, i, done = [], [], 0, 0
+    while i <= n:
+        k = _match_at(vm, items, i, pk, pv) if (limit is None or done < limit) else None
+        if k is not None and (k > 0 or i < n or True):
+            out_c += rcs; out_w += rws; done += 1
+            if k == 0:
+                if i < n: out_c.append(items[i]); out_w.append(ws[i])
+                i += 1
+            else: i += k
+        else:
+            if i < n: out_c.append(items[i]); out_w.append(ws[i])
+            i += 1
+    return BStr(Buf(out_c, out_w))
+
+
+@path('String::insert', 'String::insert_str', 'String::remove', 'String::split_off')
+def _(vm, a, ci):
+    m = ci.method
+    s = _bounded(vm, S(vm, a[0])); k = a[1]
+    if not isinstance(k, int): raise Unmodelled(f'String::{m} with a symbolic index')
+    if not s.is_boundary(k) or (m == 'remove' and k >= s.nbytes()): raise PanicEdge('panic', f'String::{m}({k}): not a char boundary / out of range of a {s.nbytes()}-byte string')
+    from .std_iter import _widths
+    left, right = s.sub(0, k), s.sub(k, s.nbytes())
+    if m == 'split_off': vm.ref_set(a[0], left); return right
+    if m == 'remove':
+        c = right.chars()[0]; w = _widths(right)[0]
+        vm.ref_set(a[0], str_concat(vm, left, right.sub(w, right.nbytes()))); return c
+    ins = char_string(vm, a[2]) if (isinstance(a[2], int) or is_sym(a[2])) else _bounded(vm, S(vm, a[2]))
+    vm.ref_set(a[0], str_concat(vm, str_concat(vm, left, ins), right)); return UNIT
+
+
 @path('String::truncate')
 def _(vm, a, ci):
     cur = S(vm, a[0]); n = a[1]
